@@ -5,8 +5,10 @@ Part 1 (this section): the LEB128 decoders and encoders of `internal/leb128` (mo
 tied to the code by the differential run of hc03).
 -/
 import Wz.Proofs.C03_Leb
+import Wz.Proofs.C03_Frame
+import Wz.Proofs.C03_Validator
 namespace Wz.C03
-open Wz.Model.Leb128 Wz.C03.Leb
+open Wz.Model.Leb128 Wz.C03.Leb Wz.Model.Frame
 
 deriving instance DecidableEq for Except
 
@@ -151,5 +153,121 @@ set_option maxRecDepth 100000 in
 continuation bit set, and accepts it (`ff ff ff ff ff` decodes to -1 with 5 bytes consumed). -/
 theorem leb_i33_fifth_continuation_accepted_witness :
     decodeInt33 [0xff#8, 0xff#8, 0xff#8, 0xff#8, 0xff#8] = .ok (-1, 5) := by decide +kernel
+
+/-! ## Section framing and what the decoder reserves before it reads (finding F3a)
+
+Full statement of the property for this part: `∀ bs, allocUnits bs ≤ K * bs.length` — the memory the
+decoder reserves from counts it has merely READ is proportional to the input.  It is FALSE for the
+decoder as pinned (`alloc_witness`, `alloc_not_proportional_asIs`) and holds for the repaired decoder
+(`alloc_proportional`, variant `.capped` = repo_patches/C03-fix-F3a.diff).  hc03 replays the witness on
+every run and ties the variant the code matches.  Partial with respect to the whole property: the model
+covers the top-level vector of each section and custom sections; nested vectors (parameter/result types,
+names, element/data vectors, code bodies, name maps) follow the same `reserve` rule
+(`reserve_capped_le_remaining`) but are not walked by the model, the number of declared locals is not
+bounded by anything (finding F3b), and the engines' own allocations are monitored, not modelled. -/
+
+/-- repaired decoder: never more than 3 units per input byte, for every input -/
+theorem alloc_proportional (bs : List Byte) : allocUnits .capped bs ≤ 3 * bs.length :=
+  Wz.C03.Frame.frame_alloc_capped bs
+
+/-- the rule each (also nested) vector follows in the repaired decoder -/
+theorem reserve_capped_le_remaining (n remaining : Nat) : reserve .capped n remaining ≤ remaining :=
+  (Wz.C03.Frame.reserve_capped_le n remaining).1
+
+/-- F3a: the 15-byte witness makes the pinned decoder reserve 2^28 elements (× 80 bytes = 20 GiB),
+the repaired one none -/
+theorem alloc_witness :
+    f3aWitness.length = 15 ∧ allocUnits .asIs f3aWitness = 2 ^ 28 ∧ allocUnits .capped f3aWitness = 0 ∧
+    (frame .asIs f3aWitness).verdict = "count-exceeds-section" := by
+  decide +kernel
+
+/-- hence no bound of the shape the monitor uses (4096 units per byte + 2^26) holds for the pinned decoder -/
+theorem alloc_not_proportional_asIs : ¬ ∀ bs : List Byte, allocUnits .asIs bs ≤ 4096 * bs.length + 2 ^ 26 := by
+  intro h
+  have := h f3aWitness
+  have w := alloc_witness
+  rw [w.1, w.2.1] at this
+  omega
+
+/-- the variants differ ONLY in what they reserve: same verdict, same sections -/
+theorem variants_same_walk_witness :
+    (frame .asIs f3aWitness).secs = (frame .capped f3aWitness).secs := by decide +kernel
+
+/-- non-vacuity / test by evaluation: a well-formed two-section module is walked to the end -/
+example : (frame .capped (magic ++ version ++ [0x01#8, 0x04#8, 0x01#8, 0x60#8, 0x00#8, 0x00#8, 0x03#8, 0x02#8, 0x01#8, 0x00#8])).verdict = "ok" := by
+  decide +kernel
+
+/-! ## The function-body validator on fragment W0 (`Wz.Model.Validator`, proofs in `Wz.C03v`)
+
+`check` is the algorithm of `func_validation.go` (operand stack with the unknown marker and stack limits,
+control stack) on the nested syntax of W0; `WellTyped` are the declarative typing rules of the
+specification.  The model is compared with the real `Module.Validate` on generated bodies and token-level
+mutants (accept/reject must agree), and on every numeric instruction with every operand/result typing. -/
+
+open Wz.Model.Validator in
+/-- Soundness for ALL W0 bodies.  Finding switch (observation Q3/F37): the validator as pinned accepts
+alignment exponents ≥ 63 (`1<<align` is evaluated on a 64-bit int), which the specification rejects; the
+repaired validator accepts exactly the bodies with `check = ok ∧ alignSane`, and for those: -/
+theorem validate_sound_W0 (C : Ctx) (body : List TI) (hal : alignSane body = true)
+    (h : check C body = .ok ()) : WellTyped C body :=
+  Wz.C03v.validate_sound_W0 C body hal h
+
+open Wz.Model.Validator in
+/-- … and the as-is variant is NOT sound w.r.t. the declarative rules: `i32.const 0; i32.load align=2^64`
+is accepted by the algorithm and is not well typed (leniency only: both engines ignore the alignment). -/
+theorem validate_asIs_alignment_witness :
+    check Wz.C03v.C0 [.const .i32 0, .load .i32 32 false 64 0] = .ok () ∧
+    ¬ WellTyped Wz.C03v.C0 [.const .i32 0, .load .i32 32 false 64 0] := by
+  refine ⟨rfl, fun h => ?_⟩
+  have := Wz.C03v.hasType_load_align h .i32 32 false 64 0 (by simp)
+  omega
+
+open Wz.Model.Validator Wz.Spec.Wasm Wz.C03v in
+/-- "Engines pop without checks thanks to validation", for W0 and the reference semantics: in a module
+whose functions are all well typed, a call with its parameters on the stack NEVER reports the internal
+outcome `"stack"` (operand missing), for every fuel, function and store; nor `"unsupported"` when the
+numeric names in the code are known to `Num.scalar` (`NumOK`: a hypothesis — `scalar` dispatches on
+strings and is not evaluated symbolically; hc01 exercises every name against it). -/
+theorem welltyped_progress {m : Module} {tm : TModule} (hok : ModuleOK m tm) (fuel f : Nat) (fr : Frame)
+    (st : Store) (hf : f < tm.funcIdx.length) (hargs : (funcType m f).params.length ≤ fr.stack.length) :
+    (callFunc m fuel f fr st).1 ≠ .trap "stack" ∧
+      (NumOK tm → (callFunc m fuel f fr st).1 ≠ .trap "unsupported") :=
+  Wz.C03v.welltyped_progress hok fuel f fr st hf hargs
+
+open Wz.Model.Validator Wz.Spec.Wasm Wz.C03v in
+/-- the same for an export call with an argument list of the right length -/
+theorem welltyped_progress_invoke {m : Module} {tm : TModule} (hok : ModuleOK m tm) (fuel f : Nat)
+    (args : List Nat) (st : Store) (hf : f < tm.funcIdx.length)
+    (hargs : args.length = (funcType m f).params.length) :
+    (invoke m fuel f args st).1 ≠ .trap "stack" ∧
+      (NumOK tm → (invoke m fuel f args st).1 ≠ .trap "unsupported") :=
+  Wz.C03v.welltyped_progress_invoke hok fuel f args st hf hargs
+
+open Wz.Model.Validator Wz.Spec.Wasm Wz.C03v in
+/-- Composition: what the (repaired) validator ALGORITHM accepts never makes the reference semantics pop
+an empty stack.  `m` is the erasure of `tm`; imports have at most one result (the reference `hostResult`
+returns at most one value); table entries are function indices. -/
+theorem validated_never_pops_empty {m : Module} {tm : TModule}
+    (h1 : m.types = tm.types) (h2 : m.imports = tm.imports)
+    (h3 : m.funcs = tm.funcs.map (fun f => ⟨f.type, f.locals, erase f.body⟩)) (h4 : m.table = tm.table)
+    (himp : ∀ ti, ti ∈ tm.imports → (tm.types.getD ti default).results.length ≤ 1)
+    (htab : ∀ fi, fi ∈ tm.table → fi < tm.funcIdx.length)
+    (hchk : ∀ f, f ∈ tm.funcs → check (tm.ctx f) f.body = .ok () ∧ alignSane f.body = true)
+    (fuel f : Nat) (args : List Nat) (st : Store) (hf : f < tm.funcIdx.length)
+    (hargs : args.length = (funcType m f).params.length) :
+    (invoke m fuel f args st).1 ≠ .trap "stack" :=
+  (Wz.C03v.welltyped_progress_invoke
+    ⟨h1, h2, h3, h4, himp, fun g hg => Wz.C03v.validate_sound_W0 _ _ (hchk g hg).2 (hchk g hg).1, htab⟩
+    fuel f args st hf hargs).1
+
+open Wz.Model.Validator Wz.Spec.Wasm Wz.C03v in
+/-- non-vacuity: the concrete module `m0`/`tm0` (a block, a `br_if`, a recursive call, arithmetic) meets
+every hypothesis of `validated_never_pops_empty`; and an ill-typed body really does pop an empty stack. -/
+example : ∀ fuel arg st, (invoke m0 fuel 0 [arg] st).1 ≠ .trap "stack" := fun fuel arg st =>
+  validated_never_pops_empty (tm := tm0) rfl rfl rfl rfl (by intro ti h; cases h) (by intro fi h; cases h)
+    (by intro f hf; simp only [tm0, List.mem_singleton] at hf; subst hf; exact ⟨rfl, by decide⟩)
+    fuel 0 [arg] st (by decide) rfl
+open Wz.Model.Validator Wz.Spec.Wasm in
+example : (execSeq {} 5 (erase [.num "i32.add"]) {} {}).1 = .trap "stack" := by decide
 
 end Wz.C03
